@@ -17,7 +17,8 @@ RelClose(a, b, rel) == FLe(FAbs(FSub(a, b)), FMul(rel, FMax(FAbs(a), FAbs(b))))
 WeightsOK(L, w) == /\ Len(w) = L
                    /\ \A i \in 1..Len(w) : FIsFinite(w[i]) /\ FLt(Zero, w[i])
                    /\ RelClose(FSum(w), FInt(L), FParse("1e-9"))
-DirichletErr(alpha) == Len(alpha) <= 2 \/ \E i \in 1..Len(alpha) : ~FLt(Zero, alpha[i])
+\* invalid parameters: fewer than three of them, or one that is not a positive finite number (zero, negative, NaN, infinite)
+DirichletErr(alpha) == Len(alpha) <= 2 \/ \E i \in 1..Len(alpha) : ~FLt(Zero, alpha[i]) \/ ~FIsFinite(alpha[i])
 DirichletOK(total, n, s) == /\ Len(s) = n /\ \A i \in 1..n : FIsFinite(s[i]) /\ FLe(Zero, s[i])
                             /\ FLe(FAbs(FSub(FSum(s), total)), FMul(FParse("1e-9"), FMax(Un, FAbs(total))))
 \* rate categories: non-negative, non-decreasing (up to the routine's own rounding noise), mean 1
